@@ -35,6 +35,8 @@ FB = 'pcbasic/basic/display/framebuffer.py'
 
 
 def check(ctx, rep):
+    from ..optargs import check as _optargs
+    _optargs(ctx, rep, [G], 6)
     dl = ctx.fn(G + ':Graphics._draw_line')
     loops = [n for n in dl.body if isinstance(n, ast.For)]
     ok = len(loops) == 1 and norm(loops[0].iter) == 'range(x0, x1 + sx, sx)' and norm(loops[0].target) == 'x'
@@ -170,7 +172,7 @@ def check(ctx, rep):
     rep.ob('put.default-xor', 'PUT defaults to XOR', dflt == ['operation_token or tk.XOR'], repr(dflt), ctx.where(put))
 
 
-def variants(ctx):
+def _variants0(ctx):
     Va = mu.Variant
 
     def in_fn(f_name, f):
@@ -205,3 +207,10 @@ def _fold_width(fn):
     fn.body.remove(w[0])
     x[0].value = ast.parse('x0 + self._mode.sprite_builder.width_factor * (x1 - x0)', mode='eval').body
     return True
+
+
+def variants(ctx):
+    return _variants0(ctx) + [
+        mu.Variant('circle-attribute-zero-treated-as-omitted', 'break', 'pcbasic/basic/display/graphics.py',
+                   lambda tree: (lambda fn: mu.replace_expr(fn, mu.text_is('attr_index is None'), 'not attr_index'))(mu.find_def(tree, 'Graphics.circle_')), expect='arguments.zero-is-not-omitted'),
+    ]
